@@ -37,7 +37,7 @@ Rewrite rules (closed list, every application logged with source line):
   R1  the return value is named: `-> Ty` becomes `-> (ret: Ty)`
   N1  `for (&a, &b) in E {B}` / `for (a, b) in E` -> `for __kv in E { let a = *__kv.0; ... }`
   N2  leading `if C { continue; }` in a `for` body -> `if !(C) { rest }`
-  N3  `if let P = E && C {A} else {B}` -> `match E { P if C => {A} _ => {B} }`
+  N3  `if let P = E && C {A} else {B}` -> `match E { P if C => {A} _ => {B} }`; `if C && let P = E {A}` (no else) -> `if C { if let P = E {A} }`
   N4  `E.map_or(LIT, |p| B)` -> `(match E { Some(p) => B, None => LIT })` (definition of Option::map_or)
   N5  `E.map(|p| B).unwrap_or(LIT)` -> `(match E { Some(p) => B, None => LIT })`
   N7  `E.is_some_and(|p| B)` / `E.is_none_or(|p| B)` -> `match` (definitions)
@@ -668,6 +668,35 @@ def rule_N3(src, lo, hi, enabled):
                     out.append(("N3", toks[bc].end, toks[bc].end, " _ => {} }"))
                 i = brace + 1
                 continue
+        elif t.kind == "ident" and t.text == "if" and i + 1 < n and toks[i + 1].text != "let":
+            # `if C && let P = E { A }` (no else)  ->  `if C { if let P = E { A } }`  (&& evaluates left to right, short-circuit)
+            j = i + 1
+            d = 0
+            amp = brace = None
+            while j < n:
+                x = toks[j].text
+                if x in ("(", "["):
+                    d += 1
+                elif x in (")", "]"):
+                    d -= 1
+                elif d == 0 and x == "&&" and j + 1 < n and toks[j + 1].text == "let" and amp is None:
+                    amp = j
+                elif d == 0 and x == "{":
+                    brace = j
+                    break
+                elif d == 0 and x == ";":
+                    break
+                j += 1
+            if amp is not None and brace is not None:
+                bc = match_close(toks, brace)
+                rest = src[toks[amp + 1].start:toks[brace].start]
+                has_else = bc + 1 < n and toks[bc + 1].text == "else"
+                if not has_else and "&&" not in rest and "||" not in src[toks[i + 1].start:toks[amp].start]:
+                    cond = src[toks[i + 1].start:toks[amp].start].strip()
+                    out.append(("N3", toks[i].start, toks[brace].start, "if %s { if %s " % (cond, rest.strip())))
+                    out.append(("N3", toks[bc].end, toks[bc].end, " }"))
+                    i = brace + 1
+                    continue
         i += 1
     return out
 
